@@ -191,7 +191,10 @@ func (c *SizedLRU) Add(key string, value lruItem) (ok bool) {
 	var sizeDelta, uncompressedSizeDelta int64
 	if ee, ok := c.cache[key]; ok {
 		sizeDelta = roundedUpSizeOnDisk - roundUp4k(ee.Value.(*entry).value.sizeOnDisk)
-		if c.reservedSize+sizeDelta > c.maxSize {
+		// The new value must fit next to the reserved space on its own:
+		// the eviction below cannot free reserved space, and would
+		// otherwise evict the entry that is being written.
+		if c.reservedSize+roundedUpSizeOnDisk > c.maxSize {
 			return false
 		}
 		uncompressedSizeDelta = roundUp4k(value.size) - roundUp4k(ee.Value.(*entry).value.size)
